@@ -199,6 +199,43 @@ def check_desc_table(ctx, table):
     ctx.leg('S2C', desc_protocol_cases=n)
 
 
+def check_description_sequence(ctx):
+    """the description object itself, for every statement shape that builds one its own way (plain, wildcard, aggregate with helper
+    targets, pivoted, over a subquery, no rows): a sequence - len, indexing from both ends, slicing, repeated iteration, equality
+    with the description of a second execution - of 7-item sequences"""
+    import collections.abc
+    conn = make_conn()
+    stmts = ['SELECT i FROM #t', 'SELECT * FROM #t', 'SELECT i, count(*) AS n FROM #t GROUP BY i HAVING count(*) > 0 ORDER BY max(i)',
+             'SELECT i, i % 2 AS m, count(*) AS n FROM #t GROUP BY 1, 2 PIVOT BY 1, 2', 'SELECT i, i % 2 AS m, count(*) AS n, max(i) AS x FROM #t GROUP BY 1, 2 PIVOT BY m, i',
+             'SELECT i AS a FROM (SELECT i FROM #t)', 'SELECT i FROM #t WHERE i < 0', 'SELECT i, i % 2 AS m, count(*) AS n FROM #t WHERE i < 0 GROUP BY 1, 2 PIVOT BY 1, 2']
+    n = 0
+    for text in stmts:
+        cur = conn.execute(text)
+        d = cur.description
+        d2 = conn.execute(text).description
+        checks = {}
+        try:
+            first = list(d)
+            checks['sequence'] = isinstance(d, collections.abc.Sequence)
+            checks['len'] = len(d) == len(first) >= 1
+            checks['iterate-again'] = list(d) == first and [c for c in d] == first
+            checks['index'] = d[0] == first[0] and d[-1] == first[-1] and d[len(d) - 1] == first[-1]
+            checks['slice'] = list(d[0:1]) == first[0:1] and list(d[1:]) == first[1:] and list(d[:]) == first
+            checks['equality'] = (d == d2) and not (d != d2)
+            checks['items'] = all(len(c) == 7 and isinstance(c[0], str) and list(c[2:]) == [None] * 5 for c in d)
+            rows = cur.fetchall()
+            checks['row-arity'] = all(len(r) == len(first) for r in rows)
+        except Exception as ex:  # noqa
+            checks['raises:' + type(ex).__name__] = False
+        for name, ok in checks.items():
+            n += 1
+            if not ok:
+                ctx.violation('description:%s' % name, 'cursor.description as a sequence: %s' % name, {'text': text}, 'S2C', True, False)
+        ctx.case('description:' + text)
+    ctx.traces += n
+    ctx.leg('S2C', description_sequence_checks=n)
+
+
 def module_attrs(ctx):
     import beanquery
     exp = {'apilevel': '2.0', 'threadsafety': 2, 'paramstyle': 'pyformat'}
@@ -350,6 +387,7 @@ def run(ctx):
     module_attrs(ctx)
     res = ctx.tlc('Gen_Cursor', 'Gen_CursorDesc.cfg', leg='GEN', workers=1)
     check_desc_table(ctx, res.printed[0])
+    check_description_sequence(ctx)
     gens = [('Gen_Cursor.cfg', 1)]
     if not ctx.quick:
         gens = [('Gen_Cursor4.cfg', 1), ('Gen_Cursor2.cfg', 2)]
